@@ -203,7 +203,13 @@ func TestNeedsJS(t *testing.T) {
 		{"application/javascript", "a", false},
 		{"text/html", "a.html", false},
 		{"", "a.html", false},
-		{"application/javascript", "dir.x/a", true}, // filepath.Ext semantics: extension of the last element
+		// the extension is that of the last path element: a dot in a directory part is none
+		{"application/javascript", "dir.x/a", false},
+		{"application/javascript", "v1.2/part", false},
+		{"application/javascript", "./part", false},
+		{"application/javascript", "../shared/part", false},
+		{"application/javascript", "admin.v2/part.js", false},
+		{"application/javascript", "admin.v2/part.html", true}, // filepath.Ext semantics: extension of the last element
 	}
 	for _, c := range cases {
 		if got := needsJS(c.ct, c.name); got != c.want {
